@@ -284,6 +284,9 @@ func (s *Sim) checkPerioRegistration(ctx *StepCtx) {
 	if !(s.oracleOn(prop) && (s.cfg.Profile == "C03" || s.cfg.Profile == "C15" || s.cfg.Profile == "C05")) || s.model.perioTaint || len(s.cfg.Faults) > 0 || s.firedM["dp.reject"]+s.firedM["dp.latefail"]+s.firedM["dp.empty"] > 0 {
 		return
 	}
+	if s.heldReq != nil {
+		return // the periodic server is inside a tick (holdps): what is queued for it waits
+	}
 	got := s.perioGroups()
 	want := s.model.expectedPerio()
 	for p, n := range want {
